@@ -59,6 +59,13 @@ func (s *Scanner) Scan() bool {
 				return true
 			}
 			errs[i].pos = s.s.Position()
+			if !s.s.Pushed() {
+				// The parser committed to its format and discarded the
+				// input it had read: the other formats cannot be tried on
+				// what is left of the record.
+				s.err = errs[i].err
+				return false
+			}
 			s.s.Pop()
 		}
 		argmax := 0
